@@ -106,6 +106,13 @@ func (en *Engine) doCall(st *State, fr *Frame, x *ssa.Call) ([]*State, bool, err
 	if callee != nil && callee.Blocks != nil && en.P.inModule(callee) {
 		en.NotInlined[callee] = true
 	}
+	if callee == nil || !en.P.inModule(callee) {
+		// equivalent spellings of library calls are rewritten to one canonical form (canon.go)
+		var done bool
+		if name, args, done = en.canonical(st, fr, x, name, args); done {
+			return nil, false, nil
+		}
+	}
 	ct := lookupContract(name)
 	if ct != nil && ct.Iterate {
 		return en.iterate(st, fr, x, name, callee, args, ct)
